@@ -2,7 +2,7 @@
 import itertools
 from vlib import Prop, CaseT, unhex
 
-ALPHA = ["(", ")", "[", "]", ",", ";", '"', " ", "a", "é"]
+ALPHA = ["(", ")", "[", "]", ",", ";", '"', " ", "a", "é", "\u00a0", "\u2003"]   # incl. multi-byte white space (NBSP, EM SPACE)
 TYPES = ["int", "uint", "short", "ushort", "byte", "ubyte", "float", "double", "char", "string", "lstring", "bigint"]
 
 
@@ -67,7 +67,7 @@ class C19(Prop):
     rule = ("generated schemas for 0..40 extra columns (generator text and field count); grammar-based schemas "
             "(simple/object/table; sized and variable arrays; enum/set; index/unique/primary/auto), every truncation "
             "(by token) and single-token mutation of each; every string of length ≤ 4 (quick) / ≤ 5 (thorough) over "
-            "the alphabet ( ) [ ] , ; \" space a é. Non-trivial = the real parser returns at least one declaration "
+            "the alphabet ( ) [ ] , ; \" space a é NBSP EM-SPACE (multi-byte white space); schemas whose blanks are partly non-ASCII white space. Non-trivial = the real parser returns at least one declaration "
             "with a field, or an error other than InvalidDeclareType")
     removable = ()
 
@@ -88,6 +88,9 @@ class C19(Prop):
                     continue
                 m = rng.choice(muts)
                 texts.add("".join(toks[:i] + [m] + toks[i + 1:]))
+            # the same schema as pasted from a web page: some blanks are non-ASCII white space (NBSP, EM SPACE, IDEOGRAPHIC SPACE)
+            for ws in ("\u00a0", "\u2003", "\u3000"):
+                texts.add("".join((ws if (tk == " " and rng.chance(1, 2)) else tk) for tk in toks))
             for t in sorted(texts):
                 out.append(CaseT(f"sc{k}", "autosql", [], ["TEXT " + (t.encode().hex() or "-")], tags={"schema"}))
                 k += 1
@@ -101,6 +104,8 @@ class C19(Prop):
             if li % 7 == 0:
                 text = text[: len(text) // 2]                 # truncated: does not parse
                 expect = None
+            if li % 6 == 1:
+                text = text.replace(" ", "\u00a0", 2).replace("    ", "\u2003", 1)    # non-ASCII white space in a supplied schema
             if li % 5 == 0:
                 text = 'simple helper\n"a helper type"\n(\n    int a;\t"a"\n    int b;\t"b"\n)\n' + text
             ncol = 0
